@@ -1429,8 +1429,10 @@ func cfgValid(cfg *ResponseConfig) bool {
 //@   ensures  valid: result == nil ==> (cfg.TimeShiftBufferDepthS == nil || (*cfg.TimeShiftBufferDepthS >= 0 && *cfg.TimeShiftBufferDepthS <= MAX_TIME_SHIFT_BUFFER_DEPTH_S)) && (cfg.PeriodsPerHour == nil || (*cfg.PeriodsPerHour >= 1 && *cfg.PeriodsPerHour <= 3600)) && cfg.TimeSubsDurMS >= 1 && cfg.TimeSubsDurMS <= 1000 && (cfg.SCTE35PerMinute == nil || (*cfg.SCTE35PerMinute >= 1 && *cfg.SCTE35PerMinute <= 3))
 //@   ensures  stopNotBeforeStart: result == nil ==> (cfg.StopTimeS == nil || *cfg.StopTimeS >= cfg.StartTimeS)
 //@   ensures  startNrInRange: result == nil ==> (cfg.StartNr == nil || (*cfg.StartNr >= 0 && *cfg.StartNr <= 1000000000))
-//@   ensures  kept: cfg.StopTimeS == old(cfg.StopTimeS) && cfg.StartTimeS == old(cfg.StartTimeS) && cfg.TimeShiftBufferDepthS == old(cfg.TimeShiftBufferDepthS) && cfg.PeriodsPerHour == old(cfg.PeriodsPerHour) && cfg.TimeSubsDurMS == old(cfg.TimeSubsDurMS) && cfg.SCTE35PerMinute == old(cfg.SCTE35PerMinute) && cfg.SegStatusCodes == old(cfg.SegStatusCodes) && cfg.Traffic == old(cfg.Traffic) && cfg.StartNr == old(cfg.StartNr)
-//@   assigns  cfg.LatencyTargetMS
+//@   ensures  offsetNotNegative: result == nil ==> cfg.AvailabilityTimeOffsetS >= 0.0
+//@   ensures  minusOneIsTheDefault: result == nil && old(cfg.StartNr) != nil && old(*cfg.StartNr) == -1 ==> cfg.StartNr == nil
+//@   ensures  kept: cfg.StopTimeS == old(cfg.StopTimeS) && cfg.StartTimeS == old(cfg.StartTimeS) && cfg.TimeShiftBufferDepthS == old(cfg.TimeShiftBufferDepthS) && cfg.PeriodsPerHour == old(cfg.PeriodsPerHour) && cfg.TimeSubsDurMS == old(cfg.TimeSubsDurMS) && cfg.SCTE35PerMinute == old(cfg.SCTE35PerMinute) && cfg.SegStatusCodes == old(cfg.SegStatusCodes) && cfg.Traffic == old(cfg.Traffic) && (cfg.StartNr == old(cfg.StartNr) || cfg.StartNr == nil) && cfg.AvailabilityTimeOffsetS == old(cfg.AvailabilityTimeOffsetS)
+//@   assigns  cfg.LatencyTargetMS, cfg.StartNr
 //@   allocates
 
 // cfgValidScalars: the scalar part of cfgValid.
@@ -1440,7 +1442,8 @@ func cfgValidScalars(cfg *ResponseConfig) bool {
 		cfg.TimeSubsDurMS >= 1 && cfg.TimeSubsDurMS <= 1000 &&
 		(cfg.SCTE35PerMinute == nil || (*cfg.SCTE35PerMinute >= 1 && *cfg.SCTE35PerMinute <= 3)) &&
 		(cfg.StopTimeS == nil || *cfg.StopTimeS >= cfg.StartTimeS) &&
-		(cfg.StartNr == nil || (*cfg.StartNr >= 0 && *cfg.StartNr <= 1000000000))
+		(cfg.StartNr == nil || (*cfg.StartNr >= 0 && *cfg.StartNr <= 1000000000)) &&
+		cfg.AvailabilityTimeOffsetS >= 0.0
 }
 
 // processURLCfg: never crashes, and an accepted URL yields a configuration whose scalar
@@ -1792,6 +1795,7 @@ func encWanted(codec string) bool { return strHasPrefix(codec, "avc") || strHasP
 //@   callsite calcWrapTimes requires windowEndsAtStop: (cfg.StopTimeS == nil ==> arg_nowMS == nowMS && !afterStop) && (cfg.StopTimeS != nil ==> arg_nowMS == min(nowMS, *cfg.StopTimeS*1000) && afterStop == (*cfg.StopTimeS*1000 < nowMS))
 //@   callsite calcWrapTimes requires windowNotBeforeStart: nowMS >= cfg.StartTimeS*1000 && (cfg.StopTimeS == nil || *cfg.StopTimeS >= cfg.StartTimeS) ==> arg_nowMS >= cfg.StartTimeS*1000
 //@   callsite calcWrapTimes requires windowDepthFromCfg: cfg.TimeShiftBufferDepthS != nil ==> int(arg_tsbd) == *cfg.TimeShiftBufferDepthS * 1000000000
+//@   callsite (*asset).generateTimelineEntries requires offsetNotNegative: cfg.AvailabilityTimeOffsetS >= 0.0 ==> arg_atoMS >= 0
 //@   callsite (*asset).generateTimelineEntries requires windowAndOffsetHandedOn: arg_wt == wTimes && arg_atoMS == atoMS && arg_repID == as.Representations[0].Id
 //@   callsite (*asset).generateTimelineEntriesFromRef requires audioFollowsReference: arg_refSE == refSegEntries && arg_repID == as.Representations[0].Id && as.ContentType == "audio" && asIdx != 0
 //@   callsite adjustAdaptationSetForTimelineTime requires timeTimelineFromEntries: arg_se == se && arg_as == as && templateType == timeLineTime
